@@ -40,18 +40,29 @@ def make_driver():
     from molli.pipeline.driver import DriverBase
     from molli.pipeline.job import Job, JobInput
 
-    def _script(key, planroot, arg):
+    def _script0(key, planroot, arg):
+        # first, UNNAMED command: counts the attempt; may fail ("prepfail": always, "prepfail1": on the first attempt only)
         c, p = shlex.quote(f"{planroot}/{key}.count"), shlex.quote(f"{planroot}/{key}.plan")
         return (
             f"n=$(cat {c} 2>/dev/null || echo 0); n=$((n+1)); echo $n > {c}; plan=$(cat {p}); "
+            f"case \"$plan\" in prepfail) exit 5 ;; prepfail1) [ \"$n\" -ge 2 ] || exit 5 ;; esac"
+        )
+
+    def _script(key, planroot, arg):
+        c, p = shlex.quote(f"{planroot}/{key}.count"), shlex.quote(f"{planroot}/{key}.plan")
+        return (
+            f"n=$(cat {c} 2>/dev/null || echo 0); plan=$(cat {p}); "
             f"echo \"S {key} {arg} $n\"; "
             f"case \"$plan\" in "
-            f"ok) echo \"R {key} {arg} $n\" > result.txt ;; "
+            f"ok|prepfail|prepfail1) echo \"R {key} {arg} $n\" > result.txt ;; "
             f"fail) exit 3 ;; "
             f"nofile) : ;; "
             f"okat*) k=${{plan#okat}}; if [ \"$n\" -ge \"$k\" ]; then echo \"R {key} {arg} $n\" > result.txt; else exit 4; fi ;; "
             f"esac"
         )
+
+    def _cmds(exe, key, planroot, arg):
+        return [(f"{exe} -c {shlex.quote(_script0(key, planroot, arg))}", None), (f"{exe} -c {shlex.quote(_script(key, planroot, arg))}", "calc")]
 
     def _key(M):
         cid = getattr(M, "_conf_id", None)
@@ -62,12 +73,12 @@ def make_driver():
 
         # post-processor that needs the returned file
         @Job(return_files=("result.txt",)).prep
-        def calc(self, M, planroot=None, arg=0):
-            return JobInput(M.name, commands=[(f"{self.executable} -c {shlex.quote(_script(_key(M), planroot, arg))}", "calc")],
+        def calc(self, M, planroot=None, arg=0, broken=()):
+            return JobInput(M.name, commands=_cmds(self.executable if _key(M) not in broken else "/nonexistent/vf-missing-exe", _key(M), planroot, arg),
                             files={"m.xyz": M.dumps_xyz().encode()}, return_files=self.return_files)
 
         @calc.post
-        def calc(self, out, M, planroot=None, arg=0):
+        def calc(self, out, M, planroot=None, arg=0, broken=()):
             txt = out.files["result.txt"].decode().strip()
             if isinstance(M, ml.chem.ensemble.Conformer):
                 return txt
@@ -86,12 +97,12 @@ def make_driver():
 
         # post-processor that only reads stdout (never notices by itself that the run failed)
         @Job(return_files=("result.txt",)).prep
-        def lenient(self, M, planroot=None, arg=0):
-            return JobInput(M.name, commands=[(f"{self.executable} -c {shlex.quote(_script(_key(M), planroot, arg))}", "calc")],
+        def lenient(self, M, planroot=None, arg=0, broken=()):
+            return JobInput(M.name, commands=_cmds(self.executable if _key(M) not in broken else "/nonexistent/vf-missing-exe", _key(M), planroot, arg),
                             files={"m.xyz": M.dumps_xyz().encode()}, return_files=self.return_files)
 
         @lenient.post
-        def lenient(self, out, M, planroot=None, arg=0):
+        def lenient(self, out, M, planroot=None, arg=0, broken=()):
             txt = "R" + out.stdouts["calc"].strip()[1:]
             if isinstance(M, ml.chem.ensemble.Conformer):
                 return txt
@@ -115,8 +126,10 @@ def outcome(plan, n):
     """(commands succeeded and return file present?) for attempt number n"""
     if plan == "ok":
         return True
-    if plan in ("fail", "nofile"):
+    if plan in ("fail", "nofile", "prepfail"):
         return False
+    if plan == "prepfail1":
+        return n >= 2
     if plan.startswith("okat"):
         return n >= int(plan[4:])
     raise HarnessError("bad plan")
@@ -212,12 +225,14 @@ def check(r) -> list[Fail]:
                 atexit.unregister(dst._backend.flush)
                 model_dst = {}
                 pre, foreign = [], []
+            all_units = [u for k in keys for u in units[k]]
+            broken = sorted({all_units[i % len(all_units)] for i in run.get("broken", [])})   # units whose executable cannot be started in this run
             job = getattr(drv, jobname)
             before_counts = dict(count)
             try:
                 with warnings.catch_warnings():
                     warnings.simplefilter("ignore")
-                    jobmap(job, src, dst, cache_dir=cache_dir, scratch_dir=scratch, n_workers=4, kwargs={"planroot": planroot, "arg": arg}, progress=False, log_level="critical")
+                    jobmap(job, src, dst, cache_dir=cache_dir, scratch_dir=scratch, n_workers=4, kwargs={"planroot": planroot, "arg": arg, "broken": tuple(broken)}, progress=False, log_level="critical")
             except Exception as e:
                 s = exc_sig(e)
                 if s is None:
@@ -233,14 +248,19 @@ def check(r) -> list[Fail]:
                 texts, ok_all = [], True
                 for u in units[k]:
                     c = cache.get(u)
-                    if c is not None and c[0] == arg and c[1]:
+                    hkey = (arg, u in broken)      # the command line (hence the hash) differs when the executable is replaced
+                    if c is not None and c[0] == hkey and c[1]:
                         texts.append(c[2])
+                        continue
+                    if u in broken:
+                        # the runner cannot start the program: nothing runs, no new output is written, the old cache slot stays as it is
+                        ok_all = False
                         continue
                     n = count[u] + 1
                     exp_exec[u] = 1
                     ok = outcome(plan[u], n)
                     txt = f"R {u} {arg} {n}"
-                    cache[u] = (arg, ok, txt)
+                    cache[u] = (hkey, ok, txt)
                     count[u] = n
                     if ok:
                         texts.append(txt)
@@ -306,16 +326,19 @@ def classify(r):
         lab.append("cache_polluted")
     if any(run.get("new_dest") for run in r["runs"][1:]):
         lab.append("fresh_destination_same_cache")
+    if any(run.get("broken") for run in r["runs"]):
+        lab.append("executable_missing_in_some_run")
     if any(ev[0] == "delete" for run in r["runs"] for ev in run["cache_events"]):
         lab.append("cache_partially_deleted")
     return (fails_somewhere and len(r["runs"]) >= 2) or arg_change, lab
 
 
 def strat(tier):
-    planv = st.sampled_from(["ok", "ok", "fail", "okat2", "okat3", "nofile"])
+    planv = st.sampled_from(["ok", "ok", "fail", "okat2", "okat3", "nofile", "prepfail", "prepfail1"])
     item = st.fixed_dictionaries({"nconf": st.integers(1, 3), "plans": st.lists(planv, min_size=1, max_size=3)})
     ev = st.one_of(st.tuples(st.just("delete"), st.integers(0, 20)).map(list), st.tuples(st.just("pollute"), st.integers(0, 20), st.integers(0, 20)).map(list))
-    run = st.fixed_dictionaries({"arg": st.sampled_from([0, 0, 0, 1, 2]), "cache_events": st.lists(ev, max_size=2), "new_dest": st.sampled_from([False, False, True])})
+    run = st.fixed_dictionaries({"arg": st.sampled_from([0, 0, 0, 1, 2]), "cache_events": st.lists(ev, max_size=2), "new_dest": st.sampled_from([False, False, True]),
+                                 "broken": st.one_of(st.just([]), st.just([]), st.lists(st.integers(0, 20), min_size=1, max_size=2))})
     return st.fixed_dictionaries({
         "vec": st.booleans(), "lenient": st.booleans(),
         "items": st.lists(item, min_size=2, max_size=4 if tier == "quick" else 5),
@@ -326,7 +349,7 @@ def strat(tier):
 
 LEGS = [
     Leg("hist", check, classify, strategy=strat, n={"quick": 32, "thorough": 600}, shards={"quick": 16, "thorough": 16}, timeout={"quick": 900, "thorough": 14000},
-        rule="generated histories: 2-4/5 items (single molecules or ensembles of 1-3 conformers) with per-unit plans {ok, fail, ok at 2nd/3rd attempt, omit return file}, 2-3/4 jobmap runs with arguments from {0,1,2} (hash changes), "
-             "0-2 pre-populated source keys, 0-2 foreign destination keys, cache events (delete one output, copy another input's output into a slot) between runs, optionally a fresh empty destination with the old cache directory, strict (needs return file) and lenient (stdout only) post-processors, "
+        rule="generated histories: 2-4/5 items (single molecules or ensembles of 1-3 conformers) with per-unit plans {ok, fail, ok at 2nd/3rd attempt, omit return file, first (unnamed) command fails always / once}, 2-3/4 jobmap runs with arguments from {0,1,2} (hash changes), "
+             "0-2 pre-populated source keys, 0-2 foreign destination keys, cache events (delete one output, copy another input's output into a slot) between runs, optionally a fresh empty destination with the old cache directory, runs in which the program of some unit cannot be started (the runner dies before writing an output), strict (needs return file) and lenient (stdout only) post-processors, "
              "single and vectorised jobs; every job is a real _molli_run launch; evaluations = jobmap runs; non-trivial = a rerun after a failure, or an argument change with a populated cache"),
 ]
